@@ -44,6 +44,7 @@ From V Require Import Proto.UringOpDefs.
 From V Require Import Proto.AtomicListDefs.
 From V Require Import Proto.FdOwnerDefs.
 From V Require Import Calc.TaskBoxDefs.
+From V Require Import Proto.EventV2Defs.
 Extraction Blacklist List String Int.
 Cd "../ocaml".
 Extraction "model.ml"
@@ -263,5 +264,9 @@ Extraction "model.ml"
   FdOwner.run_ops
   FdOwner.field
   TaskBox.exec
+  EventV2.step
+  EventV2.init
+  EventV2.quiescent
+  EventV2.stuck
   (*END*).
 Cd "../coq".
